@@ -362,7 +362,8 @@ func (ss *Package) messageProperties(parent RootSchema, src protoreflect.Message
 			JSONName:    jsonFieldName(oneof.Name()),
 			Description: commentDescription(src),
 			Schema: &OneofField{
-				Ref: refPlaceholder,
+				Ref:     refPlaceholder,
+				Exposed: true,
 				// TODO: Oneof Rules
 			},
 		}
